@@ -266,6 +266,29 @@ def callers(exprs):
         except BaseException as ex:  # noqa: BLE001
             v.append({"kind": "split-condition-crashed-the-stage", "expression": e[:80], "exception": type(ex).__name__,
                       "sig": f"caller-crash:_apply_split_logic:{type(ex).__name__}"})
+        # "a malformed condition can skip a branch": next to a branch whose condition holds, the branch with condition
+        # e is decided - activated iff e evaluates truthy, otherwise skipped - and every branch is decided exactly once
+        from stabilize.expressions import ExpressionError, evaluate_expression
+
+        other = StageExecution(ref_id="c", name="c", type="t", requisite_stage_ref_ids={"a"})
+        st3 = StageExecution(ref_id="a", name="a", type="t", context={"x": 1}, split_type=SplitType.OR,
+                             split_conditions={"b": e, "c": "x == 1"})
+        try:
+            want = "activated" if evaluate_expression(e, {"x": 1}) else "skipped"
+        except ExpressionError:
+            want = "skipped"
+        except BaseException:  # noqa: BLE001  (reported by the evaluator part)
+            continue
+        n += 1
+        try:
+            act, skp = h._apply_split_logic(st3, [down, other])
+        except BaseException:  # noqa: BLE001  (reported above)
+            continue
+        a_ids, s_ids = [d.ref_id for d in act], [d.ref_id for d in skp]
+        got = "activated" if "b" in a_ids else ("skipped" if "b" in s_ids else "neither")
+        if sorted(a_ids + s_ids) != ["b", "c"] or got != want or "c" not in a_ids:
+            v.append({"kind": "or-split-decision-wrong", "expression": e[:80], "activated": a_ids, "skipped": s_ids,
+                      "branch_b_should_be": want, "sig": f"or-split:{got}-instead-of-{want}"})
     return n, v
 
 
